@@ -1,9 +1,9 @@
-CONSTANTS MaxEntries = 3
+CONSTANTS MaxEntries = 2
  Allowances = {1, 2, 3}
  Budget = 6
  Canonical = TRUE
- Flaw_SyntheticCaseOnErrorsOnly = FALSE
+ ClassSet = {"c0", "c1", "c2"}
  Emit = TRUE
 SPECIFICATION Spec
-INVARIANTS CountsOK VerdictOK LoopShape StopMeansPass EmitCase
+INVARIANTS CountsOK ExecsOK VerdictOK LoopShape StopMeansPass EmitCase
 CHECK_DEADLOCK FALSE
